@@ -97,7 +97,11 @@ def run (op : String) (args : List String) : Option String :=
   | "pai_proof_verify", [pf, n, k, pub] =>
     match pList pInt pf, pInt n, pInt k, pPoint pub with
     | some pf, some n, some k, some pub =>
-      some (verdict (Paillier.proofVerify curPaiProof Sha512.sha512_256 pf n k pub))
+      -- Go reports a short `xs` as (false, error) and a small factor as (false, nil), whichever of its two
+      -- goroutines answers first: both are "not accepted"
+      some (match Paillier.proofVerify curPaiProof Sha512.sha512_256 pf n k pub with
+        | .err _ => "reject"
+        | o => verdict o)
     | _, _, _, _ => none
   | "ec_8inv8", [a] =>
     match pPoint a with
